@@ -31,6 +31,17 @@ func (l *Lexer) NewTokenAt(tokenType token.Type, literal string, startLine, star
 	}
 }
 
+// stringToken reads a string literal with read and creates its token; a literal
+// that is not terminated before the end of the input becomes an ILLEGAL token,
+// so that the parser reports it.
+func (l *Lexer) stringToken(tokenType token.Type, startLine, startColumn int, read func() (string, bool)) token.Token {
+	literal, terminated := read()
+	if !terminated {
+		tokenType = token.ILLEGAL
+	}
+	return l.NewTokenAt(tokenType, literal, startLine, startColumn)
+}
+
 func baseNextToken(l *Lexer) token.Token {
 	var tok token.Token
 
@@ -139,15 +150,15 @@ func baseNextToken(l *Lexer) token.Token {
 	case '"':
 		// Capture position BEFORE reading the string
 		startLine, startColumn := l.Line, l.Column
-		tok = l.NewTokenAt(token.STRING, l.readString('"'), startLine, startColumn)
+		tok = l.stringToken(token.STRING, startLine, startColumn, func() (string, bool) { return l.readString('"') })
 	case '\'':
 		// Capture position BEFORE reading the string
 		startLine, startColumn := l.Line, l.Column
-		tok = l.NewTokenAt(token.STRING, l.readString('\''), startLine, startColumn)
+		tok = l.stringToken(token.STRING, startLine, startColumn, func() (string, bool) { return l.readString('\'') })
 	case '`':
 		// Capture position BEFORE reading the raw string
 		startLine, startColumn := l.Line, l.Column
-		tok = l.NewTokenAt(token.RAW_STRING, l.readRawString(), startLine, startColumn)
+		tok = l.stringToken(token.RAW_STRING, startLine, startColumn, l.readRawString)
 	case 0:
 		if l.atEOF() {
 			tok = l.NewToken(token.EOF, "")
